@@ -5,6 +5,7 @@ package pfcpiface
 
 import (
 	"errors"
+	"fmt"
 
 	"github.com/omec-project/upf-epc/logger"
 	"github.com/wmnsk/go-pfcp/ie"
@@ -242,6 +243,18 @@ func (pConn *PFCPConn) handleAssociationReleaseRequest(msg message.Message) (mes
 	return arres, nil
 }
 
+// decodePFDContents decodes a PFD Contents IE; a panic of the go-pfcp decoder on inconsistent
+// embedded length fields is reported as a decoding error.
+func decodePFDContents(pfdContent *ie.IE) (fields *ie.PFDContentsFields, err error) {
+	defer func() {
+		if r := recover(); r != nil {
+			fields, err = nil, ErrOperationFailedWithReason("decode PFD Contents", fmt.Sprint(r))
+		}
+	}()
+
+	return pfdContent.PFDContents()
+}
+
 func (pConn *PFCPConn) handlePFDMgmtRequest(msg message.Message) (message.Message, error) {
 	pfdmreq, ok := msg.(*message.PFDManagementRequest)
 	if !ok {
@@ -282,7 +295,7 @@ func (pConn *PFCPConn) handlePFDMgmtRequest(msg message.Message) (message.Messag
 		}
 
 		for _, pfdContent := range pfdCtx {
-			fields, err := pfdContent.PFDContents()
+			fields, err := decodePFDContents(pfdContent)
 			if err != nil {
 				pConn.RemoveAppPFD(id)
 				return errUnmarshalReply(err, appIDPFD)
